@@ -29,6 +29,11 @@ FLAVOURS = {
                  ldflags=SAN),
     'noseed': dict(cc='gcc', cflags=['-O1', '-g', '-fno-omit-frame-pointer'] + SAN + COMMON + NOSEED,
                    ldflags=SAN),
+    # system seeders reachable (no RDRAND): getentropy with /dev/urandom fallback, /dev/urandom alone
+    'sys-ge': dict(cc='gcc', cflags=['-O1', '-g', '-fno-omit-frame-pointer'] + SAN + COMMON + ['-DBR_RDRAND=0'],
+                   ldflags=SAN),
+    'sys-ur': dict(cc='gcc', cflags=['-O1', '-g', '-fno-omit-frame-pointer'] + SAN + COMMON + ['-DBR_RDRAND=0', '-DBR_USE_GETENTROPY=0'],
+                   ldflags=SAN),
     'fuzz': dict(cc='clang-14',
                  cflags=['-O1', '-g', '-fno-omit-frame-pointer',
                          '-fsanitize=fuzzer-no-link,address,undefined',
@@ -43,6 +48,13 @@ FLAVOURS = {
     'ct-O2': dict(cc='gcc', cflags=['-O2', '-g', '-DBR_VERIF_VALGRIND'] + COMMON, ldflags=[]),
     'plain': dict(cc='gcc', cflags=['-O2', '-g'] + COMMON, ldflags=[]),
 }
+
+
+if os.environ.get('VERIF_COV'):
+    # line-coverage survey of the workloads (tools/coverage.py): gcc flavours only
+    for _f in ('asan', 'noseed', 'plain', 'sys-ge', 'sys-ur'):
+        FLAVOURS[_f]['cflags'] = FLAVOURS[_f]['cflags'] + ['--coverage']
+        FLAVOURS[_f]['ldflags'] = FLAVOURS[_f]['ldflags'] + ['--coverage']
 
 
 def sha(*parts):
